@@ -923,7 +923,17 @@ class HistRun:
             elif k == "dup" and out:
                 out.append(dict(r.choice(out)))
             elif k == "variant" and names:
-                out.append({"rel": c.path + r.choice(names), "enc": r.choice(["full", "lower", "plain", "dslash", "dotseg"])})
+                special = [n for n in names if any(ch in n for ch in ";,=+&@:'()")]
+                if special and r.random() < 0.5:
+                    # sub-delimiters sent literally, as RFC 3986 allows inside a path segment
+                    out.append({"rel": c.path + r.choice(special), "enc": "subdelims"})
+                    if r.random() < 0.5:
+                        # and a never-existing name that differs from a member only behind a ';'
+                        plain = [n for n in names if not any(ch in n for ch in ";,=+&@:'()% #?")]
+                        if plain:
+                            out.append({"rel": c.path + r.choice(plain) + ";v=2", "enc": "subdelims"})
+                else:
+                    out.append({"rel": c.path + r.choice(names), "enc": r.choice(["full", "lower", "plain", "dslash", "dotseg"])})
             elif k == "abs" and names:
                 out.append({"rel": c.path + r.choice(names), "abs": True})
             elif k == "other":
@@ -1351,6 +1361,8 @@ class HistRun:
         elif enc == "lower":
             t = self.world.target(rel)
             t = "".join(ch.lower() if i > 0 and t[i - 1] == "%" or (i > 1 and t[i - 2] == "%") else ch for i, ch in enumerate(t))
+        elif enc == "subdelims":
+            t = self.world.prefix.rstrip("/") + urllib.parse.quote(rel, safe="/;,=+&@:'()!*$")
         elif enc in ("dslash", "dotseg"):
             # another spelling of the same path: a doubled slash or a "." segment before the last segment
             head, _, last = rel.rpartition("/")
